@@ -199,8 +199,13 @@ def run_case(case, ctx):
             ops.append(["plant", 0, i[:12]])
         for a in case["absent"][:2]:
             ops.append(["plant", 0, a + "_notes"])
-    ops.append(["session", 0])
     q = 0
+    # in the SAME session: a state point that was only opened (never initialised) is not a job - its full id is unknown
+    for n in range(ninit, len(sps)):
+        q += 1
+        ops.append(["openid", "q%d" % q, 0, ids[n]])
+        ops.append(["drop", "q%d" % q])
+    ops.append(["session", 0])
     # every prefix length of (a sample of) the ids, initialised or not, plus absent prefixes
     sample = ids if len(ids) <= 6 else ids[:3] + ids[-3:]
     for i in sample:
